@@ -73,3 +73,11 @@ Theorem C17_source_evaluate_refines : forall self sc, sg_X_sample self <> [] ->
   exists s', g_SMBO_evaluate self sc = Ok s' /\ sabs s' = smbo_evaluate (sabs self) (sg_pos_new self) sc /\ sg_pos_new s' = sg_pos_new self.
 Proof. exact evaluate_tie. Qed.
 Print Assumptions C17_source_evaluate_refines.
+
+(* the no-repeat clause for the GENERATED evaluate: with replacement=False the scored position is removed from the candidates (every row
+   equal to it), and candidates are only ever removed -- one generated step of C17_no_repeat_without_replacement *)
+Theorem C17_source_evaluate_removes_scored_position : forall self sc s', sg_X_sample self <> [] -> sg_replacement self = false ->
+  g_SMBO_evaluate self sc = Ok s' ->
+  ~ In (sg_pos_new self) (sg_all_pos_comb s') /\ (forall q, In q (sg_all_pos_comb s') -> In q (sg_all_pos_comb self)) /\ sg_replacement s' = false.
+Proof. exact source_evaluate_removes. Qed.
+Print Assumptions C17_source_evaluate_removes_scored_position.
